@@ -102,6 +102,15 @@ func RunRestart(e *Env) {
 		}(i, c)
 	}
 	wg.Wait()
+	for rep := 0; rep < e.Pick(8, 100); rep++ {
+		if e.Of > 1 && rep%e.Of != e.Batch {
+			continue
+		}
+		if R.NumViolations() > 6 {
+			break
+		}
+		runRestartReceiverLate(e, rep)
+	}
 }
 
 func runRestartCase(e *Env, idx int, c RCase) {
